@@ -24,6 +24,8 @@ type pathsCase struct {
 	MaxIdx  int64      `json:"maxidx"`
 	NumKeys bool       `json:"numkeys"`
 	IsIndex bool       `json:"isindex"`
+	Br      bool       `json:"br"`  // the key is wrapped in [ ]
+	Esc     bool       `json:"esc"` // the EscapePath option is given
 	Exp     struct {
 		Ideal json.RawMessage `json:"ideal"`
 		Alts  []altExp        `json:"alts"`
@@ -86,6 +88,12 @@ func runPaths(c *pathsCase, variant string) (out pathsOutcome, skipped bool) {
 	}
 	key := strings.Join(parts, ".")
 	opts := []ucfg.Option{ucfg.PathSep("."), ucfg.MaxIdx(c.MaxIdx), ucfg.EnableNumKeys(c.NumKeys)}
+	if c.Br {
+		key = "[" + key + "]"
+	}
+	if c.Esc {
+		opts = append(opts, ucfg.EscapePath())
+	}
 	panicked, msg := guard(func() {
 		var cfg *ucfg.Config
 		var err error
